@@ -360,6 +360,8 @@ pub fn build_case_iv(case: &Value, env: Arc<Environment>) -> IvCase {
     ctx.solution.routes.push(route_ctx);
     ctx.solution.required.retain(|j| !tour_jobs.contains(j));
     ctx.solution.unassigned.retain(|j, _| !tour_jobs.contains(j));
+    // markers placed in the tour are no longer waiting in `ignored` (every job lives in exactly one place)
+    ctx.solution.ignored.retain(|j| !tour_jobs.contains(j));
     // NOTE `accept_solution_state` is NOT called: with route intervals it removes a marker whose neighbour intervals
     // could be merged (`remove_trivial_markers`), i.e. it would change the generated tour. The evaluator reads route
     // level caches only; `impl.tour_kept` reports that the tour under evaluation is the generated one.
@@ -443,7 +445,56 @@ pub fn exec(case: &Value) -> Value {
     });
     // the tour under evaluation is the generated one (job activities in order, markers where the case has them)
     let tour_kept = route_ctx.route().tour.all_activities().filter(|a| a.job.is_some()).count() == case["tour"].as_array().unwrap().len();
-    json!({"legs": legs, "any": any, "concrete": concrete, "sched": sched, "intervals": intervals, "caches": caches, "tour_kept": tour_kept})
+    let mut out = json!({"legs": legs, "any": any, "concrete": concrete, "sched": sched, "intervals": intervals, "caches": caches, "tour_kept": tour_kept});
+    // diagnostic, only on request (`"probe_solution_state": true` in the case): what `accept_solution_state` does to
+    // the route with its markers — not part of the model comparison
+    if case["probe_solution_state"].as_bool() == Some(true) {
+        out["after_solution_state"] = probe_solution_state(ec);
+    }
+    out
+}
+
+/// calls `goal.accept_solution_state` (which removes markers between mergeable intervals) and reports whether the
+/// cached route state still equals a recomputation from the bare tour, then calls it a second time
+fn probe_solution_state(mut ec: IvCase) -> Value {
+    let fresh_equal = |rc: &RouteContext, problem: &Problem| {
+        let mut fresh = RouteContext::new_with_state(
+            vrp_core::models::solution::Route { actor: rc.route().actor.clone(), tour: rc.route().tour.deep_copy() },
+            RouteState::default(),
+        );
+        problem.goal.accept_route_state(&mut fresh);
+        rc.state().verif_digest() == fresh.state().verif_digest()
+    };
+    let before = ec.ctx.solution.routes[0].route().tour.total();
+    let dbg = std::env::var("C06IV_DEBUG").is_ok();
+    let lists = |sc: &SolutionContext| {
+        let id = |j: &Job| j.dimens().get_job_id().cloned().unwrap_or_default();
+        format!("required={:?} ignored={:?} locked={:?} unassigned={:?} tour={:?}",
+            sc.required.iter().map(id).collect::<Vec<_>>(), sc.ignored.iter().map(id).collect::<Vec<_>>(),
+            sc.locked.iter().map(id).collect::<Vec<_>>(), sc.unassigned.keys().map(id).collect::<Vec<_>>(),
+            sc.routes[0].route().tour.all_activities().map(|a| a.job.as_ref().and_then(|s| s.dimens.get_job_id().cloned()).unwrap_or("-".into())).collect::<Vec<_>>())
+    };
+    if dbg {
+        eprintln!("before: {}", lists(&ec.ctx.solution));
+    }
+    ec.problem.goal.accept_solution_state(&mut ec.ctx.solution);
+    if dbg {
+        eprintln!("after 1st: {} stale={}", lists(&ec.ctx.solution), ec.ctx.solution.routes[0].is_stale());
+    }
+    let rc = &ec.ctx.solution.routes[0];
+    let first = json!({"tour_total_before": before, "tour_total_after": rc.route().tour.total(), "is_stale": rc.is_stale(),
+                       "caches_equal_recomputation": fresh_equal(rc, &ec.problem),
+                       "intervals": rc.state().get_reload_intervals().map(|ivs| ivs.iter().map(|(s, e)| json!([s, e])).collect::<Vec<_>>())});
+    let problem = ec.problem.clone();
+    let second = match std::panic::catch_unwind(std::panic::AssertUnwindSafe(move || {
+        problem.goal.accept_solution_state(&mut ec.ctx.solution);
+        let rc = &ec.ctx.solution.routes[0];
+        json!({"tour_total_after": rc.route().tour.total(), "caches_equal_recomputation": fresh_equal(rc, &problem)})
+    })) {
+        Ok(v) => v,
+        Err(_) => json!({"panic": last_panic()}),
+    };
+    json!({"first_call": first, "second_call": second})
 }
 
 #[allow(dead_code)]
